@@ -15,8 +15,9 @@ class CFG:
     """Control-flow graph over normal (non-unwind) edges.  Blocks whose
     terminator is `unreachable` are pruned, as are cleanup blocks."""
 
-    def __init__(self, fn):
+    def __init__(self, fn, removed=frozenset()):
         self.fn = fn
+        self.removed = frozenset(removed)
         blocks = fn.blocks
         dead = {b.idx for b in blocks if b.term.kind == "unreachable" and not b.stmts}
         self.nodes = []
@@ -30,7 +31,7 @@ class CFG:
             if n in seen or n in dead or blocks[n].cleanup:
                 continue
             seen.add(n)
-            ss = [s for s in blocks[n].term.successors() if s not in dead and not blocks[s].cleanup]
+            ss = [s for s in blocks[n].term.successors() if s not in dead and not blocks[s].cleanup and (n, s) not in self.removed]
             self.succ[n] = ss
             stack.extend(ss)
         self.nodes = sorted(seen)
@@ -296,9 +297,9 @@ def const_value(op):
 class Analysis:
     """All per-function analyses, computed lazily and cached."""
 
-    def __init__(self, fn):
+    def __init__(self, fn, removed=frozenset()):
         self.fn = fn
-        self.cfg = CFG(fn)
+        self.cfg = CFG(fn, removed)
         self._defs = None
         self._expr_cache = {}
         self._alias_cache = {}
@@ -866,3 +867,34 @@ def closure_of(e):
         caps = [e.a[1][k] for k in sorted(e.a[1], key=int)]
         return e.a[0][len("closure:"):], caps
     return None
+
+
+def assume(an, pred):
+    """A path-restricted view of a function: `pred(cond_expr, names)` inspects
+    every switch and returns the set of labels assumed possible (or None for
+    no assumption); edges for other labels are removed from the CFG.  Returns a
+    fresh Analysis over the pruned graph."""
+    removed = set()
+    for n in an.cfg.nodes:
+        info = an.switch_info(n)
+        if info is None:
+            continue
+        cond, targets, otherwise, names = info
+        keep = pred(cond, names)
+        if keep is None:
+            continue
+        labels = {}
+        listed = set()
+        for v, tb in targets:
+            labels.setdefault(tb, set()).add(names.get(v, v) if names else v)
+            listed.add(v)
+        if names:
+            for v, nm in names.items():
+                if v not in listed:
+                    labels.setdefault(otherwise, set()).add(nm)
+        else:
+            labels.setdefault(otherwise, set()).add("otherwise")
+        for tb, labs in labels.items():
+            if not (labs & set(keep)):
+                removed.add((n, tb))
+    return Analysis(an.fn, removed)
